@@ -309,6 +309,15 @@ func followCell(p *Prog, cell ssa.Value, seen map[ssa.Value]bool, c *consumption
 		}
 	}
 	visit(cell)
+	// a captured variable written inside a closure is read by the enclosing function as well: follow the variable
+	// from where it is declared
+	if _, isFV := cell.(*ssa.FreeVar); isFV {
+		if root := rootCell(cell); root != nil && root != cell && !seen[root] {
+			seen[root] = true
+			visit(root)
+			cell = root
+		}
+	}
 	// a named result cell is implicitly returned
 	if a, ok := cell.(*ssa.Alloc); ok {
 		fn := a.Parent()
